@@ -280,6 +280,15 @@ fn build_case(rng: &mut Rng) -> Case {
             opaque.insert(i);
         }
     }
+    if mode == 2 && rng.chance(1, 2) {
+        // a type matched by a blocklist AND an opaque pattern (not emitted; its containers must still not
+        // derive anything through it)
+        let both: Vec<usize> = blocked.iter().copied().filter(|&i| matches!(p.decls[i].kind, DKind::Struct | DKind::Union | DKind::Class) && p.decls[i].file == 0).collect();
+        if !both.is_empty() {
+            let i = *rng.pick(&both);
+            opaque_pats.push(p.path(i));
+        }
+    }
     for (i, a) in &annotated {
         let t = p.decls[*i].text.clone();
         p.decls[*i].text = format!("{a}{t}");
